@@ -106,6 +106,13 @@ def check(ctx: Ctx) -> None:
             ob.violation(f_term, waits[0].ast, "after the first failed wait the worker is not interrupted (SIGINT) before the second wait", path=evt.cfg.describe_path(p))
         if waits[1].id not in cfg.reach(fail_succ(waits[0])):
             ob.violation(f_term, waits[0].ast, "a failed first wait does not lead to the second escalation step")
+        else:
+            # ... on every path, whatever ended the connection (an orderly GATEWAY_TERMINATE included: Gateway.exit() unregisters the gateway
+            # from its group first, so nobody else is going to join or kill this worker)
+            p_skip = cfg.must_pass(fail_succ(waits[0]), [cfg.exit.id, cfg.raise_exit.id], {waits[1].id})
+            if p_skip is not None:
+                ob.violation(f_term, waits[0].ast, "after a failed first wait the ladder can be left without the second (bounded wait, then os._exit) step: a worker whose task "
+                                                   "ignores the shutdown and the interrupt lives on", construct="ladder left after first wait", path=cfg.describe_path(p_skip))
         exits = cfg_nodes_with_call(cfg, lambda c: unparse(c.func) == "os._exit")
         p = cfg.must_pass(fail_succ(waits[1]), [cfg.exit.id, cfg.raise_exit.id], {e.id for e in exits})
         ob.site(f_term, exits[0].ast if exits else waits[1].ast, "second wait failed -> os._exit", found=bool(exits))
